@@ -151,6 +151,9 @@ def run(ctx):
                (f"after the sampler returned, sample_posterior stores `{ast.unparse(attach[0])}`: with all three densities present the set is a *weighted* set, and every rebuild of it "
                 "(sample_posterior(xp=...), to_numpy(), save()) recomputes log_evidence from importance weights -- the SMC estimate, the sum of the per-step ratios, is silently replaced") if attach else "",
                disc="front-end")
+    from . import c09 as _c09
+    _reuse(ctx, _c09.run, ("C09.label",), "C08pop", "population rule shared with C09: each increment is computed on the population the previous iteration (or the restored history) recorded; a "
+           "resumed run that redraws or resizes the restored population before its first step books that step on a set that is in no record and that depends on resampling noise")
     _reuse(ctx, _c11.run, ("C11.cut",), "C08cut", "cut-point rule shared with C11: a checkpoint taken before the iteration's ratio is recorded makes a resumed run drop that step from the evidence")
     S = repo.cls("aspire.samples:SMCSamples")
     N = T.app("len", self_attr("x"))
@@ -352,6 +355,10 @@ MUTANTS += [
 MUTANTS += [
     M("front end fills in the proposal density on the returned set", "src/aspire/aspire.py", "if xp is not None:\n            samples = samples.to_namespace(xp)", "if samples.log_q is None and self.flow is not None:\n            samples.log_q = samples.array_to_namespace(self.flow.log_prob(samples.x))\n        if xp is not None:\n            samples = samples.to_namespace(xp)", "C08.sum"),
 ]
+MUTANTS += [
+    M("a resumed run resizes the restored population to n_samples before its first step", "src/aspire/samplers/smc/base.py", "self.fit_preconditioning_transform(samples.x)\n", "if resumed and len(samples.x) != n_samples:\n            samples = samples.resample(beta, n_samples=n_samples, rng=self.rng)\n        self.fit_preconditioning_transform(samples.x)\n", "C08pop", within="SMCSampler.sample"),
+]
+
 NEUTRALS = [
     M("loop adjusts the temperature after the search; the increment is taken at the adjusted one", "src/aspire/samplers/smc/base.py", "self.history.eff_target.append(\n                    self.current_target_efficiency(beta)\n                )",
       "if beta > 1.0 - 1e-12:\n                    beta = 1.0\n                self.history.eff_target.append(\n                    self.current_target_efficiency(beta)\n                )"),
